@@ -242,7 +242,21 @@ fn embdims(c: &DimCase, ctx: &mut CaseCtx) -> Result<(), Fail> {
     Ok(())
 }
 
+/// Every SlabRouter the product creates allocates (and zero-fills) a 16 MB embedding chunk. With
+/// glibc's defaults each of them is a fresh mmap + page faults + munmap, which serialises the worker
+/// threads on the process's memory-map lock; keeping such blocks inside the malloc arenas avoids
+/// that. Pure performance tuning of the harness process, no effect on what is checked.
+fn tune_malloc() {
+    // SAFETY: mallopt only sets allocator parameters
+    unsafe {
+        libc::mallopt(libc::M_MMAP_THRESHOLD, 32 << 20);
+        libc::mallopt(libc::M_TRIM_THRESHOLD, 1 << 30);
+        libc::mallopt(libc::M_TOP_PAD, 64 << 20);
+    }
+}
+
 fn main() {
+    tune_malloc();
     main_for(PropDef {
         id: "C07",
         level: "fault_enumeration",
